@@ -446,6 +446,17 @@ func c01Directed(run *ev.Run, st *cmpStats) {
 	tree := func(dst string) *gen.Content {
 		return &gen.Content{Type: "tree", Src: abs(tRoot), Dst: dst, Exp: treeExp(dst)}
 	}
+	// a tree whose names contain backslashes (ordinary bytes on a Linux host)
+	bsRoot := mkdir("bs", 0o755)
+	bsDir := mkdir("bs/d\\x", 0o750)
+	bs1 := mkfile("bs/we\\ird.txt", "1\n", 0o644)
+	bs2 := mkfile("bs/d\\x/f.txt", "2\n", 0o640)
+	bs3 := mkfile("bs/up\\..\\esc.txt", "3\n", 0o600)
+	stamp()
+	bsTree := &gen.Content{Type: "tree", Src: abs(bsRoot), Dst: "/opt/bs", Exp: []gen.Expect{
+		{Dst: "/opt/bs", Kind: "dir", Node: bsRoot}, {Dst: "/opt/bs/d\\x", Kind: "dir", Node: bsDir},
+		{Dst: "/opt/bs/we\\ird.txt", Kind: "file", Src: abs(bs1), Node: bs1}, {Dst: "/opt/bs/d\\x/f.txt", Kind: "file", Src: abs(bs2), Node: bs2},
+		{Dst: "/opt/bs/up\\..\\esc.txt", Kind: "file", Src: abs(bs3), Node: bs3}}}
 	type dcase struct {
 		name     string
 		contents []*gen.Content
@@ -455,6 +466,7 @@ func c01Directed(run *ev.Run, st *cmpStats) {
 		{"entry-inside-tree-destination-listed-first", []*gen.Content{file("/opt/t/sub/extra.txt"), tree("/opt/t")}},
 		{"entry-inside-tree-destination-listed-last", []*gen.Content{tree("/opt/t"), file("/opt/t/sub/deep/extra.txt")}},
 		{"two-entries-inside-tree-destination", []*gen.Content{file("/opt/t/extra0.txt"), file("/opt/t/sub/deep/extra.txt"), tree("/opt/t")}},
+		{"backslashes-in-tree-names", []*gen.Content{bsTree}},
 		{"sources-behind-symbolic-links", []*gen.Content{
 			{Type: "dir", Src: filepath.Join(root, "linkdir"), Dst: "/var/lib/d/linked", Exp: []gen.Expect{{Dst: "/var/lib/d/linked", Kind: "dir", Node: realDir}}},
 			{Type: "doc", Src: linkDoc, Dst: "/usr/share/doc/d/README.md", Exp: []gen.Expect{{Dst: "/usr/share/doc/d/README.md", Kind: "file", Src: abs(realDoc), Node: realDoc}}},
